@@ -225,7 +225,7 @@ var linkRule = "QUIC/TLS sessions over an in-memory packet switch between identi
 	"or against a raw quic-go impostor client presenting a forged chain (victim's extension replayed onto its own certificate key, certificate not self-signed, no extension); " +
 	"oracle: a side obtains a session only if its own expectation admits the peer and the presented chain is valid; the reported remote key / peer id / link remote peer are the identity whose key signed the certificate; honest handshakes with satisfied constraints succeed; non-trivial = any constraint or forgery"
 
-var specC03Link = vstat.Spec[linkCase]{Property: "C03", Rule: "link layer: " + linkRule, Gen: genLink, Check: checkLink}
+var specC03Link = vstat.Spec[linkCase]{Property: "C03", Rule: "link layer: " + linkRule, Gen: genLink, Check: checkLink, Inflight: true}
 
 func TestC03Link(t *testing.T)       { vstat.Check(t, specC03Link) }
 func TestC03LinkReplay(t *testing.T) { vstat.Replay(t, specC03Link) }
